@@ -471,7 +471,7 @@ type replayCase struct {
 func body(t *testing.T, cfg Config, strict bool, sink func(execOut)) func(c *explore.Ctx) {
 	var failing atomic.Int32
 	return func(c *explore.Ctx) {
-		if failing.Load() > 12 && !c.Replaying() {
+		if failing.Load() > 12 {
 			// this configuration already produced confirmed violations: do not enumerate the rest of its tree
 			// (runConfig reports the configuration as not exhaustive)
 			if sink != nil {
